@@ -19,19 +19,24 @@ from ..core import CaseTimeout, err_class, listlit, natlist, natlit, pmap, with_
 IMPORTS = PL.IMPORTS
 
 
-def make_loop(seed_tuple, eidx):
+def make_loop(seed_tuple, eidx, big=False):
     rng = np.random.default_rng(list(seed_tuple))
     E = PL._entries()[eidx]
     lab = str(rng.choice(["cold", "half", "one_left", "few", "one_class"]))
     # mostly tiny pools (many cycles are cheap), a quarter of the loops on tutorial-sized pools for the fast strategies
     n = int(rng.integers(6, 12)) if (E.slow or rng.random() < 0.75) else int(rng.integers(16, 27))
+    if big:
+        # a dense benchmark-sized pool (min-max scaled features): hundreds of labels accumulate within kernel range of every candidate
+        n, lab = int(rng.integers(240, 281)), str(rng.choice(["few", "half"]))
     X, y, y_true, classes, labeling = R.gen_data(rng, E.task, n=n, binary=E.binary, cold=lab)
+    if big:
+        X = (X - X.min(axis=0)) / np.maximum(X.max(axis=0) - X.min(axis=0), 1e-12)
     oracle = str(rng.choice(["true", "true", "constant", "alternating"]))
     if oracle == "constant":
         y_true = np.zeros(len(y)) if E.task == "clf" else np.full(len(y), 1.5)
     elif oracle == "alternating":
         y_true = (np.arange(len(y)) % len(classes)).astype(float) if E.task == "clf" else np.arange(len(y), dtype=float)
-    b = int(rng.choice([1, 2, 3, 5]))
+    b = int(rng.choice([1, 2, 3, 5])) if not big else int(rng.choice([15, 20, 25]))
     if E.max_bs:
         b = min(b, E.max_bs)
     return {"eidx": eidx, "name": E.name, "X": X, "y": y, "y_true": y_true, "classes": classes, "b": b,
@@ -87,6 +92,9 @@ def run(ctx):
     for ei, E in enumerate(entries):
         for h in range(((2 if E.slow else 10) if E.variant else (3 if E.slow else 40)) if ctx.is_quick else (15 if E.slow else 300)):
             loops.append(make_loop((ctx.seed, ei, h, 1414), ei))
+        if not E.slow and not E.variant and not E.max_bs:
+            for h in range(1 if ctx.is_quick else 4):
+                loops.append(make_loop((ctx.seed, ei, h, 1415), ei, big=True))
     outs = pmap(_run_loop, loops, chunksize=1)
     terms, meta = [], []
     for lp, out in zip(loops, outs):
